@@ -7,6 +7,7 @@ package main
 
 import (
 	"fmt"
+	"go/ast"
 	"go/types"
 	"os"
 	"sort"
@@ -632,4 +633,266 @@ func ruleNumDecimal(w *World, r *RuleResult) {
 	if !found {
 		r.undecided("number-state", "-", "no lexer state sends a number token")
 	}
+}
+
+func init() {
+	register(&Rule{Name: "NARROW", Min: 1, Doc: "no address, field value or counter of the simulator is converted to a narrower integer type", Run: ruleNarrow})
+	register(&Rule{Name: "API.typednil", Min: 1, Doc: "an exported method that answers with an interface never wraps a nil pointer in it", Run: ruleTypedNil})
+}
+
+// ruleNarrow: the simulator's arithmetic is on Address (64 bit) throughout;
+// a conversion to an explicitly sized narrower integer type truncates values
+// that a legal configuration can produce (a core larger than the type's
+// range).  Every integer conversion in the library's non-test functions is an
+// obligation; it is discharged when the target is at least as wide as the
+// source, the operand is a constant or a value of an enumerated type, or the
+// target is an enumerated type.
+func ruleNarrow(w *World, r *RuleResult) {
+	width := func(t types.Type) (int, bool) {
+		b, ok := t.Underlying().(*types.Basic)
+		if !ok || b.Info()&types.IsInteger == 0 {
+			return 0, false
+		}
+		switch b.Kind() {
+		case types.Int8, types.Uint8:
+			return 8, true
+		case types.Int16, types.Uint16:
+			return 16, true
+		case types.Int32, types.Uint32:
+			return 32, true
+		}
+		return 64, true // int, uint, uintptr taken as 64 bit (the platforms the tool is built for)
+	}
+	d := newDedup(r)
+	n := 0
+	for _, fn := range libFuncs(w) {
+		for _, b := range fn.Blocks {
+			for _, in := range b.Instrs {
+				cv, ok := in.(*ssa.Convert)
+				if !ok {
+					continue
+				}
+				from, ok1 := width(cv.X.Type())
+				to, ok2 := width(cv.Type())
+				if !ok1 || !ok2 {
+					continue
+				}
+				n++
+				if to >= from {
+					continue
+				}
+				_, isConst := cv.X.(*ssa.Const)
+				_, isEnum := w.enumDomain(cv.X.Type())
+				// a value made into one of the enumerated types (an opcode from a table index) is
+				// that type's business, not a core quantity being cut short
+				_, toEnum := w.enumDomain(cv.Type())
+				good := isConst || isEnum || toEnum
+				key := fmt.Sprintf("%s/%s->%s", fn.Name(), typeName(cv.X.Type()), typeName(cv.Type()))
+				d.add(good, key, w.Pos(cv.Pos()), "constant or enumerated operand", fmt.Sprintf("a %s value is converted to %s in %s: values a legal configuration can produce (addresses in a core larger than the type's range, large fields or counters) are truncated", typeName(cv.X.Type()), typeName(cv.Type()), fn.Name()))
+			}
+		}
+	}
+	d.flush()
+	r.ok("conversions", "-", fmt.Sprintf("%d integer conversions examined", n))
+}
+
+// ruleTypedNil: a caller of GetWarrior (or any exported method returning an
+// interface) tests the answer against nil.  Wrapping a nil pointer in the
+// interface defeats that test.  For every such return the wrapped value must
+// be known not to be nil on that path.
+func ruleTypedNil(w *World, r *RuleResult) {
+	d := newDedup(r)
+	n := 0
+	var mayBeNil func(fn *ssa.Function, p *Path, v *T, depth int) (bool, string)
+	mayBeNil = func(fn *ssa.Function, p *Path, v *T, depth int) (bool, string) {
+		v = stripConv(v)
+		if hasCond(p, func(a *T, val bool) bool { return a.Op == "eq" && !val && a.A[1].Op == "nil" && sameTerm(a.A[0], v) }) {
+			return false, ""
+		}
+		switch v.Op {
+		case "nil":
+			return true, "a nil pointer"
+		case "new", "alloc", "addr", "fn", "closure":
+			return false, ""
+		case "call":
+			g := w.funcByKey(v.S)
+			if g == nil || len(g.Blocks) == 0 || !w.inPkgs(g) || depth > 2 {
+				return false, "" // not a function of the module: out of this rule's reach
+			}
+			gps, err := w.Paths(g)
+			if err != nil {
+				return false, ""
+			}
+			for _, gp := range gps {
+				if gp.End == "ret" && len(gp.Ret) >= 1 {
+					if bad, what := mayBeNil(g, gp, gp.Ret[0], depth+1); bad {
+						return true, "the result of " + g.Name() + ", which can be " + what
+					}
+				}
+			}
+		}
+		return false, ""
+	}
+	for _, fn := range libRoots(w) {
+		if !ast.IsExported(fn.Name()) || fn.Signature.Results().Len() == 0 {
+			continue
+		}
+		if _, isIface := fn.Signature.Results().At(0).Type().Underlying().(*types.Interface); !isIface {
+			continue
+		}
+		if typeName(fn.Signature.Results().At(0).Type()) == "error" {
+			continue
+		}
+		paths, err := w.Paths(fn)
+		if err != nil {
+			continue
+		}
+		for _, p := range paths {
+			if p.End != "ret" || len(p.Ret) == 0 {
+				continue
+			}
+			ret := p.Ret[0]
+			if ret.Op != "iface" {
+				continue
+			}
+			if _, isPtr := ret.A[0].Ty.Underlying().(*types.Pointer); ret.A[0].Ty == nil || !isPtr {
+				continue
+			}
+			n++
+			bad, what := mayBeNil(fn, p, ret.A[0], 0)
+			d.add(!bad, fn.Name()+"/wraps-non-nil", w.Pos(fn.Pos()), "the pointer wrapped in the returned interface is not nil on this path", fn.Name()+" returns an interface that wraps "+what+": the caller's test against nil does not see it, and the first method call on it dereferences nil")
+		}
+	}
+	d.flush()
+	if n == 0 {
+		r.undecided("sites", "-", "no exported method returns a pointer wrapped in an interface")
+	}
+}
+
+func init() {
+	register(&Rule{Name: "LINE.comment", Min: 2, Doc: "a load-file comment runs from the first ';' of the line", Run: ruleLineComment})
+	register(&Rule{Name: "CFG.wire", Min: 4, Doc: "the simulator's copy of a configuration quantity is that quantity, unchanged, on every constructor path", Run: ruleCfgWire})
+}
+
+// ruleLineComment: comment text is layout.  Where a loader cuts a line at a
+// ';' the cut must be at the first one: strings.Split(x, ";")[0], the part
+// before strings.Cut, x[:strings.Index(x, ";")].  A cut at the last ';'
+// leaves comment text in the line.
+func ruleLineComment(w *World, r *RuleResult) {
+	d := newDedup(r)
+	isSemi := func(t *T) bool {
+		t = stripConv(t)
+		return (t.Op == "str" && t.S == ";") || t.IsConstVal(';')
+	}
+	for _, fn := range loaderFuncs(w) {
+		paths, err := w.Paths(fn)
+		if err != nil {
+			continue
+		}
+		seen := false
+		for _, p := range paths {
+			visit := func(x *T, pos string) bool {
+				switch {
+				case x.Op == "elem" && stripConv(x.A[0]).Op == "call" && (stripConv(x.A[0]).S == "strings.Split" || stripConv(x.A[0]).S == "strings.SplitN") && len(stripConv(x.A[0]).A) >= 2 && isSemi(stripConv(x.A[0]).A[1]):
+					seen = true
+					d.add(stripConv(x.A[1]).IsConstVal(0), fn.Name()+"/cut", pos, "the text before the first ';' is kept", "the loader keeps piece "+x.A[1].Show()+" of the line split at ';', not the text before the first ';'")
+				case x.Op == "ext" && x.C == 1 && len(x.A) == 1 && x.A[0].Op == "call" && x.A[0].S == "strings.Cut" && len(x.A[0].A) == 2 && isSemi(x.A[0].A[1]):
+					seen = true
+					d.add(true, fn.Name()+"/cut", pos, "the text before the first ';' is kept", "")
+				case x.Op == "slice" && len(x.A) == 4 && x.A[1].Op == "none" && stripConv(x.A[2]).Op == "call" && strings.HasPrefix(stripConv(x.A[2]).S, "strings.") && len(stripConv(x.A[2]).A) == 2 && isSemi(stripConv(x.A[2]).A[1]):
+					name := strings.TrimPrefix(stripConv(x.A[2]).S, "strings.")
+					seen = true
+					first := name == "Index" || name == "IndexByte" || name == "IndexRune"
+					d.add(first, fn.Name()+"/cut", pos, "the text before the first ';' is kept", "the loader cuts the line at strings."+name+"(line, \";\"): a comment that itself contains a ';' is only partly removed, and what is left of it is read as fields")
+				}
+				return true
+			}
+			for i := range p.Events {
+				e := &p.Events[i]
+				pos := w.Pos(instrPosE(e))
+				for _, t := range append([]*T{e.Val, e.Res, e.LV}, e.Args...) {
+					if t != nil {
+						t.walk(func(x *T) bool { return visit(x, pos) })
+					}
+				}
+			}
+			for _, cd := range p.Conds {
+				cd.Atom.walk(func(x *T) bool { return visit(x, w.Pos(cd.Pos)) })
+			}
+		}
+		if !seen {
+			d.add(false, fn.Name()+"/cut", w.Pos(fn.Pos()), "", "the loader does not cut lines at ';' in a way this rule recognises")
+		}
+	}
+	d.flush()
+}
+
+// ruleCfgWire: the limits, the core size, the process and cycle limits the
+// simulator works with are the configuration's.  Every store to a simulator
+// field that receives a configuration field on some constructor path must
+// store that same configuration field on every path.
+func ruleCfgWire(w *World, r *RuleResult) {
+	c := newSimCtx(w)
+	if len(c.a.Err) > 0 || c.a.Ctor == nil {
+		r.undecided("anchors", "-", strings.Join(c.a.Err, "; "))
+		return
+	}
+	paths, err := w.Paths(c.a.Ctor)
+	if err != nil {
+		r.undecided("paths", w.Pos(c.a.Ctor.Pos()), err.Error())
+		return
+	}
+	cfgField := func(t *T) string {
+		t = stripConv(t)
+		if t.Op == "sel" && typeName(t.A[0].Ty) == "SimulatorConfig" {
+			return t.S
+		}
+		if t.Op == "sel" && t.A[0].Op == "deref" && typeName(t.A[0].A[0].Ty) == "*SimulatorConfig" {
+			return t.S
+		}
+		return ""
+	}
+	simT := "*" + c.a.SimT.Obj().Name()
+	type st struct {
+		val *T
+		pos string
+	}
+	stores := map[string][]st{}
+	for _, p := range paths {
+		for i := range p.Events {
+			e := &p.Events[i]
+			if e.Kind != "store" || e.LV.Op != "sel" {
+				continue
+			}
+			root := e.LV.A[0]
+			if root.Op == "deref" {
+				root = root.A[0]
+			}
+			if typeName(root.Ty) != simT && !(root.Op == "new" && strings.Contains(typeName(root.Ty), c.a.SimT.Obj().Name())) {
+				continue
+			}
+			stores[e.LV.S] = append(stores[e.LV.S], st{e.Val, c.posOf(e)})
+		}
+	}
+	d := newDedup(r)
+	var fields []string
+	for f := range stores {
+		fields = append(fields, f)
+	}
+	sort.Strings(fields)
+	for _, f := range fields {
+		src := ""
+		for _, s := range stores[f] {
+			if cf := cfgField(s.val); cf != "" {
+				src = cf
+			}
+		}
+		if src == "" {
+			continue
+		}
+		for _, s := range stores[f] {
+			d.add(cfgField(s.val) == src, "field/"+f, s.pos, "holds configuration field "+src+" on every path", "simulator field "+f+" holds the configuration's "+src+" on some constructor paths but "+s.val.Show()+" on others: the battle is not played with the configured value")
+		}
+	}
+	d.flush()
 }
